@@ -291,8 +291,15 @@ def make_shapes(gen: Gen, tier: str, parse_mods: dict[str, list[str]]):
             return g.struct("Lambda", ar, fillv(fill, "body"))
         shapes.append(Shape("Lambda", f"Lambda/{ar}", ["body"], build,
                             {"body": (src, ";")}))
-    for cls, op in (("LambdaMap", "ƛ"), ("LambdaFilter", "'"),
-                    ("LambdaSort", "µ")):
+    from .templates import LAMBDA_OP_EXTRA
+    extra_ops = []
+    if LAMBDA_OP_EXTRA:
+        info = gen.it.module("vyxal.parse").get("STRUCTURE_INFORMATION")
+        for op_, v_ in info.items():
+            if v_[0].name in LAMBDA_OP_EXTRA:
+                extra_ops.append((v_[0].name, op_))
+    for cls, op in [("LambdaMap", "ƛ"), ("LambdaFilter", "'"),
+                    ("LambdaSort", "µ")] + extra_ops:
         def build(g, fill, cls=cls):
             return g.struct(cls, fillv(fill, "body"))
         shapes.append(Shape(cls, cls, ["body"], build, {"body": (op, ";")}))
